@@ -169,6 +169,25 @@ impl<C: Ciphersuite> Lab<C> for ConcLab<C> {
     fn adv_scalar(&mut self, name: &str) -> Scalar<C> {
         self.named(name)
     }
+    fn jointly_uniform(&mut self, values: &[Scalar<C>], what: &str) -> bool {
+        // nothing can be differentiated concretely; the observable consequence is checked: pairwise distinct
+        let mut ok = true;
+        for i in 0..values.len() {
+            for j in (i + 1)..values.len() {
+                ok &= values[i] != values[j];
+            }
+        }
+        self.rec(ok, what)
+    }
+    fn jointly_uniform_e(&mut self, values: &[Element<C>], what: &str) -> bool {
+        let mut ok = true;
+        for i in 0..values.len() {
+            for j in (i + 1)..values.len() {
+                ok &= values[i] != values[j];
+            }
+        }
+        self.rec(ok, what)
+    }
     fn ref_hash(&mut self, which: u8, input: &[u8], got: &[u8], what: &str) -> bool {
         match self.ref_hash.and_then(|f| f(which, input)) {
             Some(want) => self.rec(want == got, what),
